@@ -1,4 +1,4 @@
-from typing import Optional, Tuple
+from typing import Optional
 
 import libcst as cst
 from libcst.codemod import CodemodContext, ContextAwareVisitor
@@ -8,6 +8,7 @@ from codemodder.codemods.libcst_transformer import (
     LibcstResultTransformer,
     LibcstTransformerPipeline,
 )
+from codemodder.codemods.utils import ReplaceNodes
 from codemodder.codemods.utils_mixin import NameAndAncestorResolutionMixin
 from codemodder.file_context import FileContext
 from codemodder.result import Result
@@ -28,10 +29,10 @@ class FlaskJsonResponseTypeTransformer(
             self.context, file_context=self.file_context, results=self.results
         )
         tree.visit(visitor)
-        if visitor.node_and_replacement:
-            node, replacement = visitor.node_and_replacement
+        for node in visitor.replacements:
             self.report_change(node)
-            return tree.deep_replace(node, replacement)
+        if visitor.replacements:
+            return tree.visit(ReplaceNodes(visitor.replacements))
         return tree
 
 
@@ -47,7 +48,9 @@ class FlaskJsonResponseTypeVisitor(
         file_context: FileContext,
         results: list[Result] | None,
     ) -> None:
-        self.node_and_replacement: Optional[Tuple[cst.CSTNode, cst.CSTNode]] = None
+        # every fixable return of the file (a headers dict bound to a name may be
+        # reached from several returns: it is replaced once)
+        self.replacements: dict[cst.CSTNode, cst.CSTNode] = {}
         self.file_context = file_context
         ContextAwareVisitor.__init__(self, context)
         UtilsMixin.__init__(
@@ -56,6 +59,9 @@ class FlaskJsonResponseTypeVisitor(
             line_include=file_context.line_include,
             line_exclude=file_context.line_exclude,
         )
+
+    def _replace(self, node: cst.CSTNode, replacement: cst.CSTNode) -> None:
+        self.replacements.setdefault(node, replacement)
 
     def leave_Return(self, original_node: cst.Return):
         if original_node.value and self.node_is_selected(original_node.value):
@@ -69,7 +75,7 @@ class FlaskJsonResponseTypeVisitor(
             if maybe_has_decorator:
                 # json.dumps(...)
                 if self._is_json_dumps_call(original_node.value):
-                    self.node_and_replacement = (
+                    self._replace(
                         original_node.value,
                         self._fix_json_dumps(original_node.value),
                     )
@@ -81,7 +87,7 @@ class FlaskJsonResponseTypeVisitor(
                         maybe_make_response
                     ):
                         if not self._has_content_type_key(maybe_dict):
-                            self.node_and_replacement = (
+                            self._replace(
                                 maybe_dict,
                                 self._fix_dict(maybe_dict),
                             )
@@ -89,12 +95,12 @@ class FlaskJsonResponseTypeVisitor(
                         first_arg = maybe_make_response.args[0].value
                         match first_arg:
                             case cst.Tuple():
-                                self.node_and_replacement = (
+                                self._replace(
                                     first_arg,
                                     self._fix_tuple(first_arg),
                                 )
                             case _:
-                                self.node_and_replacement = (
+                                self._replace(
                                     maybe_make_response,
                                     self._fix_make_response(maybe_make_response),
                                 )
@@ -105,12 +111,12 @@ class FlaskJsonResponseTypeVisitor(
                 ):
                     if maybe_dict := self._has_dict_with_headers(maybe_tuple):
                         if not self._has_content_type_key(maybe_dict):
-                            self.node_and_replacement = (
+                            self._replace(
                                 maybe_dict,
                                 self._fix_dict(maybe_dict),
                             )
                     else:
-                        self.node_and_replacement = (
+                        self._replace(
                             maybe_tuple,
                             self._fix_tuple(maybe_tuple),
                         )
